@@ -791,17 +791,45 @@ func (g *gen) execMapUpdate(fr *frame, cur *node, st *State, x *ssa.MapUpdate) {
 	g.svAssign(cur, st, dn, ds, app("store", dd, m, app("store", app("select", dd, m), k, "true")))
 }
 
-// Range over a map: ghost key sequence rk(iter, i), distinct keys, exactly the domain.
-// The iterator value is a TV{iterID, map ref}; position is the state variable $it.<id>.
+// Range over a Go map: ghost key sequence mk[0..mn) — distinct, exactly the keys present when
+// the loop started; midx[k] is the position of key k. The position is the state variable $it.<id>.
+// In loop invariants: $mi (keys already handed out), $mn, $mk[j], $midx[k].
+type iterInfo struct {
+	id          int
+	cnt, mk, ix string
+	m           string
+	isMap       bool
+}
+
 func (g *gen) execRange(fr *frame, cur *node, st *State, x *ssa.Range) {
-	id := g.c.fresh("iter", "Int")
-	if _, isMap := x.X.Type().Underlying().(*types.Map); isMap {
-		fr.vals[x] = &TV{E: []Val{id, g.sval(fr, x.X), "map"}}
-	} else {
-		fr.vals[x] = &TV{E: []Val{id, g.sval(fr, x.X), "string"}}
+	id := len(g.iters)
+	if old, ok := g.iters[x]; ok {
+		id = old.id
 	}
-	g.rangeIters[x] = len(g.rangeIters)
-	g.svSet(st, fmt.Sprintf("$it.%d", g.rangeIters[x]), "Int", "0")
+	info := &iterInfo{id: id}
+	g.iters[x] = info
+	g.svSet(st, fmt.Sprintf("$it.%d", id), "Int", "0")
+	mt, isMap := x.X.Type().Underlying().(*types.Map)
+	info.isMap = isMap
+	info.m = g.sval(fr, x.X)
+	fr.vals[x] = &TV{E: []Val{fmt.Sprint(id), info.m}}
+	if !isMap {
+		return
+	}
+	if sortOf(mt.Elem()) == "STRUCT" || sortOf(mt.Key()) == "STRUCT" {
+		g.errorf("%s: range over map with struct key/value is outside the subset", g.name)
+		return
+	}
+	ks := sortOf(mt.Key())
+	_, _, dn, ds, _ := mapVars(x.X.Type())
+	info.cnt = g.c.fresh("mn", "Int")
+	info.mk = g.c.fresh("mk", "(Array Int "+ks+")")
+	info.ix = g.c.fresh("midx", "(Array "+ks+" Int)")
+	dom := g.c.fresh("mdom0", "(Array "+ks+" Bool)")
+	cur.assume(app("=", dom, app("ite", app("=", info.m, "null"), "((as const (Array "+ks+" Bool)) false)", app("select", g.svGet(st, dn, ds), info.m))))
+	cur.assume(app(">=", info.cnt, "0"))
+	cur.assume(fmt.Sprintf("(forall ((i Int)) (! (=> (and (<= 0 i) (< i %s)) (and (select %s (select %s i)) (= (select %s (select %s i)) i))) :pattern ((select %s i))))", info.cnt, dom, info.mk, info.ix, info.mk, info.mk))
+	cur.assume(fmt.Sprintf("(forall ((k %s)) (! (=> (select %s k) (and (<= 0 (select %s k)) (< (select %s k) %s) (= (select %s (select %s k)) k))) :pattern ((select %s k))))", ks, dom, info.ix, info.ix, info.cnt, info.mk, info.ix, dom))
 }
 
 func (g *gen) execNext(fr *frame, cur *node, st *State, x *ssa.Next) {
@@ -810,13 +838,16 @@ func (g *gen) execNext(fr *frame, cur *node, st *State, x *ssa.Next) {
 		g.errorf("%s: Next on non-Range iterator", g.name)
 		return
 	}
-	it := g.val(fr, rg).(*TV)
-	k := g.rangeIters[rg]
-	pv := fmt.Sprintf("$it.%d", k)
+	info := g.iters[rg]
+	if info == nil {
+		g.errorf("%s: Next before Range", g.name)
+		return
+	}
+	pv := fmt.Sprintf("$it.%d", info.id)
 	pos := g.svGet(st, pv, "Int")
 	tup := x.Type().(*types.Tuple)
 	if x.IsString {
-		s := it.E[1].(string)
+		s := info.m
 		okv := app("<", pos, app("strlen", s))
 		np := g.c.fresh("strpos", "Int")
 		cur.assume(implies(okv, and(app(">", np, pos), app("<=", np, app("strlen", s)))))
@@ -825,35 +856,21 @@ func (g *gen) execNext(fr *frame, cur *node, st *State, x *ssa.Next) {
 		fr.vals[x] = &TV{E: []Val{okv, pos, r}}
 		return
 	}
-	m := it.E[1].(string)
-	mt := rg.X.Type().Underlying().(*types.Map)
-	if sortOf(mt.Elem()) == "STRUCT" || sortOf(mt.Key()) == "STRUCT" {
-		g.errorf("%s: range over map with struct key/value is outside the subset", g.name)
+	if info.cnt == "" {
 		fr.vals[x], _ = g.freshVal("next", x.Type(), nil)
 		return
 	}
-	mn, ms, dn, ds, _ := mapVars(rg.X.Type())
-	ks := sortOf(mt.Key())
-	// ghost: number of keys and key sequence of this iteration
-	cnt := fmt.Sprintf("rcount%d", k)
-	g.c.declareConst(cnt, "Int")
-	seq := fmt.Sprintf("rkey%d", k)
-	g.c.declareFun(seq, []string{"Int"}, ks)
-	okv := app("<", pos, cnt)
-	key := app(seq, pos)
-	dom := app("select", g.svGet(st, dn, ds), m)
-	cur.assume(app(">=", cnt, "0"))
-	cur.assume(implies(app("=", m, "null"), app("=", cnt, "0")))
-	cur.assume(implies(okv, app("select", dom, key)))
-	val := app("select", app("select", g.svGet(st, mn, ms), m), key)
+	mt := rg.X.Type().Underlying().(*types.Map)
+	mn, ms, _, _, _ := mapVars(rg.X.Type())
+	okv := app("<", pos, info.cnt)
+	key := app("select", info.mk, pos)
+	val := app("select", app("select", g.svGet(st, mn, ms), info.m), key)
+	cur.assume(and(app("<=", "0", pos), app("<=", pos, info.cnt)))
 	for _, a := range g.typeInv(val, mt.Elem(), st) {
 		cur.assume(a)
 	}
-	g.svSet(st, pv, "Int", app("+", pos, "1"))
+	g.svAssign(cur, st, pv, "Int", app("ite", okv, app("+", pos, "1"), pos))
 	fr.vals[x] = &TV{E: []Val{okv, key, val}}
-	// expose to invariants
-	g.iterFacts[k] = [3]string{cnt, seq, m}
-	_ = strings.TrimSpace
 }
 
 // nonEscaping: the address of the allocation is only loaded from, stored to, indexed, or
